@@ -5,6 +5,7 @@ import math
 import numpy as np
 from hypothesis import strategies as st
 
+from checks import common as K
 from framework.core import Facet, Violation, sut
 from oracles import reference as ref
 from strategies import data as D
@@ -261,6 +262,7 @@ def builtin_cases(draw, tier):
         case["p_pen"] = draw(st.sampled_from(fams))
     # a sentinel / gross error early in the series (missing-value codes such as -9999, 999999): every later anomaly is
     # tiny relative to the cumulative score
+    case["history"] = draw(st.sampled_from(K.HISTORIES))
     sentinel = draw(st.sampled_from([None, None, None, 9999.0, 99999.0, 999999.0, -9999.0])) if "Cov" not in coll else None
     sent_at, sent_col = draw(st.integers(0, max(0, n // 3))), draw(st.integers(0, p - 1))
     # bulk data last (see strategies/data.py)
@@ -362,11 +364,18 @@ def check_builtin(case):
         S[cuts[:, 0], cuts[:, 1]] = fresh_c.evaluate(cuts)
     pc = np.array([(t, t + 1) for t in range(n)])
     Pt = fresh_p.evaluate(pc)
+    history = case.get("history")
     try:
         with sut(f"{case['detector']}.fit/predict", allowed=(RuntimeError,)):
-            det = build(False).fit(X)
-            y = det.predict(X)
-            scores = det.transform_scores(X).to_numpy()
+            # the detector / its savings may have a past: an earlier fit of the saving objects on wider data, an
+            # earlier predict on the caller's buffer while it held other data (see common.py)
+            det = build(False)
+            if history == "scorer_prefit_wide" and not K.prefit_scorer_wide(det, X):
+                history = None
+            det.fit(X)
+            Xp = K.used_buffer(det, X, history.endswith("frame")) if history and history.startswith("used_buffer") else X
+            y = det.predict(Xp)
+            scores = det.transform_scores(Xp).to_numpy()
             y_ign = build(True).fit(X).predict(X)
     except RuntimeError as e:
         adm = [(s, e_) for s, e_ in undefined if msl <= e_ - s <= maxl]
@@ -413,6 +422,8 @@ def check_builtin(case):
     classes = [f"detector={case['detector']}", f"coll={case['coll']}"]
     if case["detector"] == "MVCAPA":
         classes.append(f"c_pen={case['c_pen']}")
+    if history:
+        classes.append(f"history={history}")
     if case.get("tuned"):
         classes.append("placed_at_pruning_boundary")
     if case.get("sentinel") is not None:
